@@ -768,10 +768,12 @@ def _expand_state(res, h, tier):
         res.succ.append((k2, h2, True))
         if i == 0:
             # the deep-copy shortcut against a replay of the whole history on a fresh object
-            wf = build(h2)
+            # (the same contents reached with and without verdicts having been asked for before the last operation)
             res.counters['shortcut_crosschecks'] += 1
-            if state_key(wf, observe(wf)) != k2:
-                res.error(f'deep copy and full replay disagree on {jdump(h2)}')
+            res.clauses['C14.history'] += 1
+            f = _with_and_without_questions(h2)
+            if f is not None:
+                _prov(res, f, {'kind': 'asked-before', 'history': h2})
         if op[0] in ('add', 'addmany'):
             # (a) add then remove restores the observation
             res.clauses['C14.addremove'] += 1
@@ -785,6 +787,27 @@ def _expand_state(res, h, tier):
             f = _compare_restored(obs0, observe(w2))
             if f is not None:
                 _prov(res, f, {'kind': 'addremove', 'history': h, 'probe': op})
+
+
+def _with_and_without_questions(h2):
+    """the state reached by h2 when verdicts were asked for before its last operation (as the search does) and when they were
+    not (plain replay): same contents, so the same observation"""
+    try:
+        wa = build(h2, upto=len(h2) - 1)
+        observe(wa)
+        wa.apply(h2[-1])
+        a = observe(wa)
+        wf = build(h2)
+        b = observe(wf)
+    except IllFormed:
+        return None
+    except Exception as e:
+        return Finding('C14.history', _exc(e), 'no exception', repr(e))
+    if state_key(wa, a) != state_key(wf, b):
+        diffs = _verdict_diffs(a['vwp'], b['vwp'], 'validateWithProfile') + _verdict_diffs(a['val'], b['val'], 'validate')
+        return Finding('C14.history', 'verdicts-depend-on-questions-asked-before-the-last-operation', 'the same observation',
+                       diffs or 'internal state differs')
+    return None
 
 
 def observe_vwp_cached(w):
@@ -828,9 +851,13 @@ def judge_case(case, tier, clauses=None):
         return []
     except Exception:
         return []  # an earlier operation raises: reported at that state, not here
+    if kind == 'asked-before':
+        f = _with_and_without_questions(h)
+        return [f] if f else []
     if kind == 'state':
         if len(h) > 1:
             try:
+                observe(w)  # as in the search: the source state has been observed before the operation
                 w.apply(h[-1])
             except IllFormed:
                 return []
